@@ -10,6 +10,7 @@ CONSTANTS
   QueueSize = 10
   SpecialCids = {}
   Journal = FALSE
+  Fork = FALSE
   DumpFile = FALSE
   VersionedCids = {}
   QuietCids = {}
